@@ -218,6 +218,9 @@ class HDFOutput(Output):
                     array.add_property(prop_name, type=type_, default=default,
                                        stride=stride)
             array.set_output_arrays(output_array)
+            # add_property does not look at the tags: without this all the
+            # particles (ghost and remote ones too) count as real.
+            array.align_particles()
             particles[str(name)] = array
         return particles
 
